@@ -156,3 +156,16 @@ LHADecoder *lha_basic_reader_decode(LHABasicReader *reader)
 	return lha_decoder_new(dtype, decoder_callback, reader,
 	                       reader->curr_file->length);
 }
+
+#ifdef LHASA_VERIF
+#include "lhasa_verif.h"
+
+void lhasa_verif_basic_project(LHABasicReader *reader,
+                               LHAFileHeader **curr_file,
+                               size_t *remaining, int *eof)
+{
+	*curr_file = reader->curr_file;
+	*remaining = reader->curr_file_remaining;
+	*eof = reader->eof;
+}
+#endif /* #ifdef LHASA_VERIF */
